@@ -28,7 +28,9 @@ class Chooser:
         self.points = []       # (n_options, choice, tags)
         self.batch = batch
 
-    def choose(self, tags):
+    def choose(self, tags, altcost=1):
+        """tags: the options in canonical order (option 0 = default).  altcost: what taking a
+        non-default option costs against the deviation/preemption bound (0 = free)."""
         n = len(tags)
         nopt = n + (n * (n - 1) if self.batch else 0)
         if nopt <= 1:
@@ -37,7 +39,7 @@ class Chooser:
         c = self.prefix[i] if i < len(self.prefix) else 0
         if c >= nopt:
             raise ReplayDivergence(f"point {i}: choice {c} but only {nopt} options {tags}")
-        self.points.append((nopt, c, tuple(tags)))
+        self.points.append((nopt, c, tuple(tags), altcost))
         return c
 
     @property
@@ -158,10 +160,12 @@ class VPolicy(asyncio.DefaultEventLoopPolicy):
         return self.vloop
 
 
-def explore(run_fn, bound=None, batch=False, max_execs=None, on_exec=None):
-    """Stateless DFS over choice prefixes with deviation bounding.
-    run_fn(chooser) runs one complete execution.  Returns dict of stats."""
-    stack = [[]]
+def explore(run_fn, bound=None, batch=False, max_execs=None, on_exec=None, roots=None):
+    """Stateless DFS over choice prefixes with deviation/preemption bounding.
+    run_fn(chooser) runs one complete execution.  `roots`: prefixes to start from (default: the
+    empty prefix); the subtree of a root contains exactly the schedules that extend it at later
+    points, so disjoint roots give disjoint subtrees.  Returns dict of stats."""
+    stack = [list(r) for r in (roots if roots is not None else [[]])]
     execs = 0
     maxpoints = 0
     capped = False
@@ -176,11 +180,11 @@ def explore(run_fn, bound=None, batch=False, max_execs=None, on_exec=None):
         if len(ch.points) < len(prefix):
             raise ReplayDivergence(f"prefix {prefix} had {len(prefix)} points, run only "
                                    f"{len(ch.points)}")
-        dev = sum(1 for c in prefix if c)
-        if bound is not None and dev + 1 > bound:
-            continue
+        cost = sum(p[3] for p in ch.points[:len(prefix)] if p[1])
         for i in range(len(prefix), len(ch.points)):
-            nopt = ch.points[i][0]
+            nopt, _c, _tags, altcost = ch.points[i]
+            if bound is not None and cost + altcost > bound:
+                continue
             base = ch.choices[:i]
             for alt in range(1, nopt):
                 stack.append(base + [alt])
@@ -189,3 +193,17 @@ def explore(run_fn, bound=None, batch=False, max_execs=None, on_exec=None):
             break
     return {"executions": execs, "max_points": maxpoints, "capped": capped,
             "bound": bound}
+
+
+def first_level(run_fn, bound=None, batch=False):
+    """Runs the default schedule and returns the list of first-level prefixes (one per
+    alternative at every point) - the roots of disjoint subtrees for parallel exploration."""
+    ch = Chooser([], batch)
+    run_fn(ch)
+    roots = []
+    for i, (nopt, _c, _tags, altcost) in enumerate(ch.points):
+        if bound is not None and altcost > bound:
+            continue
+        for alt in range(1, nopt):
+            roots.append([0] * i + [alt])
+    return roots, len(ch.points)
